@@ -23,7 +23,11 @@ LEVEL.update({
  "C02": ("The lookup algorithm's shape is decided on every path: records leave the zone only through to_rr (owner/TTL/data fidelity), referral before CNAME before answer with their exact guards, the per-query-type answer table, child-then-wildcard-then-referral-then-name-error descent on a strictly shorter label slice, and no referral from the apex node. Which records a given zone holds is a run-time value and is declined.", "3/C02"),
  "C12": ("Union-with-dedupe at the record-set level, a moved-before-dropped typestate showing no part of a merged-in zone is silently dropped, SOA value and apex SOA RRset updated together, last-writer-wins direction of the hosts maps, sorted directory listings and the load/merge order, plus the all-or-nothing loader flag, are decided on every path. Equality of answers between the merged zone and its parts is declined.", "3/C12"),
 })
+LEVEL.update({
+ "C15": ("The bookkeeping invariants that exactness of prune rests on are decided statically: each shared operation is one lock around one Cache call (field private, no unsafe), on every enumerated path of upsert the tuple count, Partition.size and current_size move together, both sizes drop by the same counted amount in the expired walk, queue updates are paired with last_read/next_expiry stores and partition insert/remove, next_expiry is only ever a minimum over all records of the name, eviction happens only in `while current_size > desired_size` after the expired walk, and the report fields have the documented origins. LRU order and counts along histories are declined; loop termination is conditional on these invariants.", "3/C15"),
+})
 TECH = {
+ "C15": "custom MIR rules: bounded path enumeration with symbolic counter effects (EFFECT), paired-update must-pass-through, min-fold shape via ORIGIN, who-calls",
  "C02": "custom MIR rules: closure-aware ORIGIN (map/collect/to_rr), guard sets per result variant, arm table, recursion-argument shape",
  "C12": "custom MIR rules: moved-before-dropped typestate, paired-update (must-pass-through) rule, ORIGIN of insert arguments, ordering by reachability",
  "C01": "custom MIR rules: CUT-REACH between zone selection and cache reads, argument-role ORIGIN at merge sites, who-constructs provenance",
